@@ -491,3 +491,185 @@ class ElectricFieldScale(Contract):
         info = {'unit': self.name, 'file': self.tu + ' + inc/PS/ElectricField.hpp', 'sha': tu.sha, 'cases': 1, 'lines': [None, None], 'extract_s': 0,
                 'note': 'initialiser expressions of both constructors evaluated symbolically; buffer allocation and FFT plan binding are not covered'}
         return [ex, ex2], info
+
+
+# =========================================================================== U15 constructors: the class invariant is established
+def ef_ctor_posts(cx, wake):
+    """what the ElectricField constructors establish of EF_valid: buffer extents equal to the impedance length, zeroed
+    transform buffers, plans bound to exactly those buffers with that length, per-bunch output tables"""
+    nx, ny, nb = ps_globals(cx)
+    nmax = cx.f('this._nmax', 'u64')
+    k = cx.g('k')
+    st = cx.st
+
+    def ptr_to(member, region_len):
+        p = st.scal.get(cx.R('this.' + member))
+        return z3.BoolVal(isinstance(p, PtrV) and p.region is not None) if p is not None else z3.BoolVal(False), p
+
+    out = []
+    okbp, bp = ptr_to('_bp_padded', nmax)
+    okff, ff = ptr_to('_formfactor', nmax)
+    plan = st.scal.get(cx.R('this._fft_bunchprofile'))
+    out.append(('forward_buffers', {'C06', 'C17', 'C18'},
+                And(okbp, okff, st.len_of(bp.region) == nmax if isinstance(bp, PtrV) and bp.region else False, bp.off == 0 if isinstance(bp, PtrV) else False,
+                    st.len_of(ff.region) == nmax if isinstance(ff, PtrV) and ff.region else False, ff.off == 0 if isinstance(ff, PtrV) else False)))
+    if isinstance(bp, PtrV) and bp.region and isinstance(ff, PtrV) and ff.region:
+        FL = parse_type_str('float')
+        out.append(('forward_buffers_zeroed', {'C06', 'C18'}, Implies(And(k >= 0, k < nmax),
+                    And(z3.Select(st.array(bp.region, '', FL), k) == 0, z3.Select(st.array(ff.region, 're', FL), k) == 0, z3.Select(st.array(ff.region, 'im', FL), k) == 0))))
+        out.append(('forward_plan', {'C06', 'C17', 'C18'},
+                    And(z3.BoolVal(isinstance(plan, models.Plan) and plan.kind == 'r2c' and plan.inp.region == bp.region and plan.out.region == ff.region),
+                        plan.n == nmax if isinstance(plan, models.Plan) else False, plan.inp.off == 0 if isinstance(plan, models.Plan) else False,
+                        plan.out.off == 0 if isinstance(plan, models.Plan) else False)))
+    out.append(('tables', {'C06', 'C07', 'C17'}, And(cx.len('this._wakepotential') == nb * nx, cx.len('this._csrspectrum') == nb * nmax, cx.len('this._csrintensity') == nb,
+                                                     cx.f('this._nbunches') == nb)))
+    if wake:
+        okwl, wl = ptr_to('_wakelosses', nmax)
+        okwp, wp = ptr_to('_wakepotential_padded', nmax)
+        plan2 = st.scal.get(cx.R('this._fft_wakelosses'))
+        out.append(('backward_buffers', {'C06', 'C17', 'C18'},
+                    And(okwl, okwp, st.len_of(wl.region) == nmax if isinstance(wl, PtrV) and wl.region else False, wl.off == 0 if isinstance(wl, PtrV) else False,
+                        st.len_of(wp.region) == nmax if isinstance(wp, PtrV) and wp.region else False, wp.off == 0 if isinstance(wp, PtrV) else False)))
+        if isinstance(wl, PtrV) and wl.region and isinstance(wp, PtrV) and wp.region:
+            FL = parse_type_str('float')
+            out.append(('backward_buffers_zeroed', {'C06', 'C18'}, Implies(And(k >= 0, k < nmax),
+                        And(z3.Select(st.array(wl.region, 're', FL), k) == 0, z3.Select(st.array(wl.region, 'im', FL), k) == 0, z3.Select(st.array(wp.region, '', FL), k) == 0))))
+            out.append(('backward_plan', {'C06', 'C17', 'C18'},
+                        And(z3.BoolVal(isinstance(plan2, models.Plan) and plan2.kind == 'c2r' and plan2.inp.region == wl.region and plan2.out.region == wp.region),
+                            plan2.n == nmax if isinstance(plan2, models.Plan) else False)))
+    return out
+
+
+class ElectricFieldCtor(Contract):
+    """ElectricField(ps, impedance, bucketnumber, spacing_bins, oclh, f_rev, revolutionpart, wakescaling): the object
+    used for the CSR spectrum; the forward-transform half of the class invariant"""
+    name = 'vfps::ElectricField::ElectricField'
+    tu = 'src/PS/ElectricField.cpp'
+    nparams = 8
+    params = ['ps', 'impedance', 'bucketnumber', 'spacing_bins', 'oclh', 'f_rev', 'revolutionpart', 'wakescalining']
+    tags = {'C06', 'C07', 'C17', 'C18'}
+    ghosts = {'k': 'int'}
+
+    def setup(self, cx):
+        cx.st.assume(declare_ps(cx, cx.arg('ps').name))
+
+    def requires(self, cx):
+        nx, ny, nb = ps_globals(cx)
+        ps, z = cx.arg('ps').name, cx.arg('impedance').name
+        from .sm import Ruler_valid
+        return [('static', PS_static(cx)), ('ps_axes', And(Ruler_valid(cx, ps + '._axis[0]', nx), Ruler_valid(cx, ps + '._axis[1]', ny))),
+                ('impedance', And(cx.f(z + '._nfreqs', 'u64') >= 2, cx.f(z + '._nfreqs', 'u64') < 2 ** 32, cx.len(z + '._data') == cx.f(z + '._nfreqs', 'u64'))),
+                ('revolutionpart', cx.a('revolutionpart') != 0), ('f_rev', cx.a('f_rev') != 0)]
+
+    def assigns(self, cx):
+        return [('s', 'this.*'), ('r', 'this.*'), ('len', 'this.*')]
+
+    @property
+    def calls(self):
+        from .z import RulerTemp
+        return {'ctor:vfps::Ruler<float>': RulerTemp()}
+
+    def ensures(self, cx):
+        z = cx.arg('impedance').name
+        bn = cx.arg('bucketnumber').name
+        k = cx.g('k')
+        return ef_ctor_posts(cx, wake=False) + \
+            [('nmax_is_impedance_length', {'C06', 'C17'}, cx.f('this._nmax', 'u64') == cx.old.f(z + '._nfreqs', 'u64')),
+             ('buckets_copied', {'C06'}, And(cx.len('this._bucket') == cx.old.len(bn), cx.sel('this._bucket', k, '', 'int') == cx.old.sel(bn, k, '', 'int'))),
+             ('spacing', {'C06'}, cx.f('this._spacing_bins', 'u64') == cx.a('spacing_bins'))]
+
+
+def ef_backward_posts(cx):
+    return [o for o in ef_ctor_posts(cx, wake=True) if o[0].startswith('backward')]
+
+
+class InitWakeLossFFT(Contract):
+    """_initWakeLossFFT(): zeroed loss spectrum and padded wake potential of the transform length, backward plan bound to them"""
+    name = 'vfps::ElectricField::_initWakeLossFFT'
+    tu = 'src/PS/ElectricField.cpp'
+    params = []
+    tags = {'C06', 'C17', 'C18'}
+    ghosts = {'k': 'int'}
+
+    def requires(self, cx):
+        return [('nmax', And(cx.f('this._nmax', 'u64') >= 2, cx.f('this._nmax', 'u64') < 2 ** 32))]
+
+    def assigns(self, cx):
+        return [('s', 'this._wakelosses_fft'), ('s', 'this._wakelosses'), ('s', 'this._wakepotential_padded'), ('s', 'this._fft_wakelosses'),
+                ('r', 'this._wakelosses_fft'), ('len', 'this._wakelosses_fft'), ('r', 'this._wakepotential_padded'), ('len', 'this._wakepotential_padded')]
+
+    def ensures(self, cx):
+        return ef_backward_posts(cx)
+
+
+class InitWakeLossFFTUse(InitWakeLossFFT):
+    """call-site view (delegating constructor): binds the members the way the verified body does"""
+
+    def effect(self, cx):
+        st, t = cx.st, cx.this or 'this'
+        nmax = cx.f('this._nmax', 'u64')
+        zero = z3.K(z3.IntSort(), z3.RealVal(0))
+        FL = parse_type_str('float')
+        wl, wp = t + '._wakelosses_fft', t + '._wakepotential_padded'
+        st.length[wl], st.length[wp] = nmax, nmax
+        st.arr[(wl, 're')], st.arr[(wl, 'im')], st.arr[(wp, '')] = zero, zero, zero
+        for k_ in ((wl, 're'), (wl, 'im'), (wp, '')):
+            st.leafct[k_] = FL
+        st.scal[t + '._wakelosses_fft'] = PtrV(wl, I(0))
+        st.scal[t + '._wakelosses'] = PtrV(wl, I(0))
+        st.scal[t + '._wakepotential_padded'] = PtrV(wp, I(0))
+        st.scal[t + '._fft_wakelosses'] = models.Plan('c2r', nmax, PtrV(wl, I(0)), PtrV(wp, I(0)))
+
+
+class ElectricFieldCtor11(Contract):
+    """ElectricField(ps, impedance, bucketnumber, spacing_bins, oclh, f_rev, revolutionpart, Ib, E0, sigma_delta, dt): the
+    object used for the wake potential — delegates and then sets up the backward transform: the whole class invariant"""
+    name = 'vfps::ElectricField::ElectricField'
+    tu = 'src/PS/ElectricField.cpp'
+    nparams = 11
+    params = ['ps', 'impedance', 'bucketnumber', 'spacing_bins', 'oclh', 'f_rev', 'revolutionpart', 'Ib', 'E0', 'sigma_delta', 'dt']
+    tags = {'C06', 'C17', 'C18'}
+    ghosts = {'k': 'int'}
+
+    def setup(self, cx):
+        cx.st.assume(declare_ps(cx, cx.arg('ps').name))
+
+    def requires(self, cx):
+        return ElectricFieldCtor.requires(self, cx) + [('scale_domain', And(cx.a('E0') != 0, cx.a('sigma_delta') != 0))]
+
+    def assigns(self, cx):
+        return [('s', 'this.*'), ('r', 'this.*'), ('len', 'this.*')]
+
+    @property
+    def calls(self):
+        return {'ctor:vfps::ElectricField': Use(ElectricFieldCtorUse(), inst=lambda cx: [{'k': cx.ghost_of('k')}]),
+                '_initWakeLossFFT': Use(InitWakeLossFFTUse(), inst=lambda cx: [{'k': cx.ghost_of('k')}])}
+
+    def ensures(self, cx):
+        z = cx.arg('impedance').name
+        bn = cx.arg('bucketnumber').name
+        k = cx.g('k')
+        return ef_ctor_posts(cx, wake=True) + \
+            [('nmax_is_impedance_length', {'C06', 'C17'}, cx.f('this._nmax', 'u64') == cx.old.f(z + '._nfreqs', 'u64')),
+             ('buckets_copied', {'C06'}, And(cx.len('this._bucket') == cx.old.len(bn), cx.sel('this._bucket', k, '', 'int') == cx.old.sel(bn, k, '', 'int'))),
+             ('spacing', {'C06'}, cx.f('this._spacing_bins', 'u64') == cx.a('spacing_bins'))]
+
+
+class ElectricFieldCtorUse(ElectricFieldCtor):
+    """call-site view of the 8-parameter constructor"""
+
+    def effect(self, cx):
+        st, t = cx.st, cx.this or 'this'
+        z = cx.arg('impedance').name
+        nmax = cx.f(z + '._nfreqs', 'u64')
+        st.scal[t + '._nmax'] = IntV(nmax, parse_type_str('unsigned long'))
+        zero = z3.K(z3.IntSort(), z3.RealVal(0))
+        FL = parse_type_str('float')
+        bp, ff = t + '._bp_padded_fft', t + '._formfactor_fft'
+        st.length[bp], st.length[ff] = nmax, nmax
+        st.arr[(bp, '')], st.arr[(ff, 're')], st.arr[(ff, 'im')] = zero, zero, zero
+        for k_ in ((bp, ''), (ff, 're'), (ff, 'im')):
+            st.leafct[k_] = FL
+        for m_, r_ in (('_bp_padded_fft', bp), ('_bp_padded', bp), ('_formfactor_fft', ff), ('_formfactor', ff)):
+            st.scal[t + '.' + m_] = PtrV(r_, I(0))
+        st.scal[t + '._fft_bunchprofile'] = models.Plan('r2c', nmax, PtrV(bp, I(0)), PtrV(ff, I(0)))
